@@ -115,6 +115,74 @@ static bool add_ext(X509 *g_ca, X509 *x, int nid, const char *val) {
     return ok == 1;
 }
 
+static GENERAL_NAMES *make_gns(const std::vector<SanEntry> &v) {
+    GENERAL_NAMES *gns = sk_GENERAL_NAME_new_null();
+    if (!gns) return nullptr;
+    for (auto &e : v) {
+        GENERAL_NAME *gn = make_gn(e);
+        if (!gn || !sk_GENERAL_NAME_push(gns, gn)) { GENERAL_NAME_free(gn); sk_GENERAL_NAME_pop_free(gns, GENERAL_NAME_free); return nullptr; }
+    }
+    return gns;
+}
+static bool add_gns_ext(X509 *x, int nid, const std::vector<SanEntry> &v, bool critical) {
+    GENERAL_NAMES *gns = make_gns(v);
+    if (!gns) return false;
+    int ok = X509_add1_ext_i2d(x, nid, gns, critical ? 1 : 0, X509V3_ADD_APPEND);
+    sk_GENERAL_NAME_pop_free(gns, GENERAL_NAME_free);
+    return ok == 1;
+}
+// cRLDistributionPoints: every element of `dps` becomes one DistributionPoint { distributionPoint [0] { fullName [0] GeneralNames } }
+static bool add_crldp_ext(X509 *x, const std::vector<std::vector<SanEntry>> &dps) {
+    STACK_OF(DIST_POINT) *st = sk_DIST_POINT_new_null();
+    if (!st) return false;
+    bool ok = true;
+    for (auto &v : dps) {
+        DIST_POINT *dp = DIST_POINT_new();
+        DIST_POINT_NAME *dpn = DIST_POINT_NAME_new();
+        GENERAL_NAMES *gns = make_gns(v);
+        if (!dp || !dpn || !gns) { DIST_POINT_free(dp); DIST_POINT_NAME_free(dpn); if (gns) sk_GENERAL_NAME_pop_free(gns, GENERAL_NAME_free); ok = false; break; }
+        dpn->type = 0; dpn->name.fullname = gns;
+        dp->distpoint = dpn;
+        if (!sk_DIST_POINT_push(st, dp)) { DIST_POINT_free(dp); ok = false; break; }
+    }
+    if (ok) ok = X509_add1_ext_i2d(x, NID_crl_distribution_points, st, 0, X509V3_ADD_APPEND) == 1;
+    sk_DIST_POINT_pop_free(st, DIST_POINT_free);
+    return ok;
+}
+static bool add_aia_ext(X509 *x, const std::vector<AiaEntry> &v) {
+    AUTHORITY_INFO_ACCESS *st = sk_ACCESS_DESCRIPTION_new_null();
+    if (!st) return false;
+    bool ok = true;
+    for (auto &a : v) {
+        ACCESS_DESCRIPTION *ad = ACCESS_DESCRIPTION_new();
+        ASN1_IA5STRING *s = ASN1_IA5STRING_new();
+        if (!ad || !s || !ASN1_STRING_set(s, a.uri.data(), (int) a.uri.size())) { ACCESS_DESCRIPTION_free(ad); ASN1_IA5STRING_free(s); ok = false; break; }
+        ASN1_OBJECT_free(ad->method);
+        ad->method = OBJ_nid2obj(a.method == 0 ? NID_ad_OCSP : NID_ad_ca_issuers);
+        GENERAL_NAME_set0_value(ad->location, GEN_URI, s);
+        if (!sk_ACCESS_DESCRIPTION_push(st, ad)) { ACCESS_DESCRIPTION_free(ad); ok = false; break; }
+    }
+    if (ok) ok = X509_add1_ext_i2d(x, NID_info_access, st, 0, X509V3_ADD_APPEND) == 1;
+    sk_ACCESS_DESCRIPTION_pop_free(st, ACCESS_DESCRIPTION_free);
+    return ok;
+}
+// authorityKeyIdentifier { keyIdentifier = CA's subjectKeyIdentifier (if any), authorityCertIssuer = { directoryName { CN = cn } }, authorityCertSerialNumber = CA's serial }
+static bool add_aki_with_issuer(X509 *ca, X509 *x, const std::string &cn) {
+    AUTHORITY_KEYID *ak = AUTHORITY_KEYID_new();
+    if (!ak) return false;
+    bool ok = false;
+    do {
+        const ASN1_OCTET_STRING *skid = X509_get0_subject_key_id(ca);
+        if (skid && !(ak->keyid = ASN1_OCTET_STRING_dup(skid))) break;
+        std::vector<SanEntry> one; one.push_back(SanEntry{ SK_DIR, cn });
+        if (!(ak->issuer = make_gns(one))) break;
+        if (!(ak->serial = ASN1_INTEGER_dup(X509_get0_serialNumber(ca)))) break;
+        ok = X509_add1_ext_i2d(x, NID_authority_key_identifier, ak, 0, X509V3_ADD_APPEND) == 1;
+    } while (0);
+    AUTHORITY_KEYID_free(ak);
+    return ok;
+}
+
 bool mint_leaf(const LeafSpec &sp, Bytes &out) {
     out.clear();
     Issuer &I = g_iss[sp.issuer & 1];
@@ -123,7 +191,6 @@ bool mint_leaf(const LeafSpec &sp, Bytes &out) {
     bool ok = false;
     X509 *x = X509_new();
     X509_NAME *subj = nullptr;
-    GENERAL_NAMES *gns = nullptr;
     unsigned char *der = nullptr;
     do {
         if (!x) break;
@@ -136,24 +203,21 @@ bool mint_leaf(const LeafSpec &sp, Bytes &out) {
         if (!subj) break;
         if (!add_raw_attr(subj, NID_countryName, V_ASN1_PRINTABLESTRING, "FI")) break;
         if (!add_raw_attr(subj, NID_organizationName, V_ASN1_UTF8STRING, "Verif C05 leaf")) break;
+        if (sp.has_ou && !add_raw_attr(subj, NID_organizationalUnitName, V_ASN1_UTF8STRING, sp.ou)) break;
         if (sp.has_cn && !add_raw_attr(subj, NID_commonName, cn_asn1_type(sp.cn_type), sp.cn)) break;
+        if (sp.has_dn_email && !add_raw_attr(subj, NID_pkcs9_emailAddress, V_ASN1_IA5STRING, sp.dn_email)) break;
         if (!X509_set_subject_name(x, subj)) break;
         if (!X509_set_pubkey(x, g_leafkey)) break;
         if (!add_ext(g_ca, x, NID_basic_constraints, "CA:FALSE")) break;
         if (!add_ext(g_ca, x, NID_key_usage, "digitalSignature,keyEncipherment,keyAgreement")) break;
         if (!add_ext(g_ca, x, NID_ext_key_usage, "serverAuth")) break;
-        if (!add_ext(g_ca, x, NID_authority_key_identifier, "keyid")) break;
-        if (!sp.san.empty()) {
-            gns = sk_GENERAL_NAME_new_null();
-            if (!gns) break;
-            bool bad = false;
-            for (auto &e : sp.san) {
-                GENERAL_NAME *gn = make_gn(e);
-                if (!gn || !sk_GENERAL_NAME_push(gns, gn)) { GENERAL_NAME_free(gn); bad = true; break; }
-            }
-            if (bad) break;
-            if (X509_add1_ext_i2d(x, NID_subject_alt_name, gns, sp.san_critical ? 1 : 0, X509V3_ADD_APPEND) != 1) break;
-        }
+        if (sp.aki_issuer) { if (!add_aki_with_issuer(g_ca, x, sp.aki_issuer_cn)) break; }
+        else if (!add_ext(g_ca, x, NID_authority_key_identifier, "keyid")) break;
+        if (!sp.ian.empty() && sp.ian_before_san && !add_gns_ext(x, NID_issuer_alt_name, sp.ian, false)) break;
+        if (!sp.san.empty() && !add_gns_ext(x, NID_subject_alt_name, sp.san, sp.san_critical)) break;
+        if (!sp.ian.empty() && !sp.ian_before_san && !add_gns_ext(x, NID_issuer_alt_name, sp.ian, false)) break;
+        if (!sp.crldp.empty() && !add_crldp_ext(x, sp.crldp)) break;
+        if (!sp.aia.empty() && !add_aia_ext(x, sp.aia)) break;
         if (!X509_sign(x, g_cakey, EVP_sha256())) break;
         int n = i2d_X509(x, &der);
         if (n <= 0) break;
@@ -162,7 +226,6 @@ bool mint_leaf(const LeafSpec &sp, Bytes &out) {
     } while (0);
     if (!ok) ERR_clear_error();
     OPENSSL_free(der);
-    if (gns) sk_GENERAL_NAME_pop_free(gns, GENERAL_NAME_free);
     X509_NAME_free(subj);
     X509_free(x);
     return ok;
